@@ -130,6 +130,7 @@ const PROFILES: &[Profile] = &[
     Profile { sweep: Some("panic"), sweep_ops: 8, sweep_k: 12, steps: Some(90), ..prof("panic-set-pairs", "set", "set-pairs") },
     prof("entry", "map", "entry"),
     prof("entry-full", "map", "entry-full"),
+    prof("entry-sat", "map", "saturate"),
     // fault sweeps
     Profile { sweep: Some("panic"), sweep_ops: 6, sweep_k: 16, steps: Some(70), ..prof("panic-mixed", "map", "mixed") },
     Profile { sweep: Some("panic"), sweep_ops: 4, sweep_k: 24, steps: Some(90), drop: Some(true), ..prof("panic-sat-drop", "map", "saturate") },
@@ -216,7 +217,7 @@ fn make_base(prof: &Profile, seed: u64, i: usize, real: Option<&mut dyn Write>) 
     let lay = *rng.pick(&["std", "std", "std", "a16", "a64", "big"]);
     let lay = if prof.coll == "table" && rng.chance(1, 5) { "zst" } else { lay };
     // odd element size (5 bytes, align 1): layout padding between data and control bytes
-    let odd = prof.coll == "map" && !prof.gen.starts_with("entry") && prof.drop.is_none() && rng.chance(1, 7);
+    let odd = prof.coll == "map" && !prof.gen.starts_with("entry") && prof.name != "entry-sat" && prof.drop.is_none() && rng.chance(1, 7);
     let (drop, lay) = if odd { (false, "odd5") } else { (drop, lay) };
     let universe = *rng.pick(&[4u64, 8, 12, 16, 24, 32, 64, 200]);
     let universe = if prof.gen == "saturate" { 4096 } else { universe };
